@@ -81,7 +81,8 @@ def run_case(rng, res, idx, tier):
                     tol = 2 * base_tol
                     errw = kh.rel_err(w.double(), ew.double())
                     res.maxi('max_shard_err_over_tol', errw / tol)
-                    errb = 0.0 if b is None else kh.rel_err(b.double(), eb.double())
+                    # the bias is one column of the layer's combined gradient: its error is measured against the combined norm
+                    errb = 0.0 if b is None else float((b.double() - eb.double()).norm()) / max(float(torch.cat([ew.double(), eb.double().reshape(-1, 1)], 1).norm()), 1e-300)
                     if w.shape != ew.shape or not (errw <= tol and errb <= tol):
                         mech = None
                         return res.violation(f'stage {stage}, step {st}, rank {r} (data {c.data}, model {c.model}), layer {li} ({kind}-parallel, bias={spec["bias"]}): gradient shard differs from '
